@@ -34,6 +34,17 @@ Definition await_ok (m : model) : bool :=
                         | BStat _ f _ aw => Bool.eqb aw (mem f (m_user_async m))
                         | _ => true end) (m_methods m).
 
+(* the caller waits for its reply the way its runtime requires: a handle method of an async runtime is an `async fn` and must
+   await the reply (a blocking `recv()` there parks an executor thread, and with it every task that thread would run - the
+   actor's own loop included); a std handle blocks *)
+Definition wait_kind_ok (m : model) : bool :=
+  forallb (fun lm => match lm_body lm with
+                     | BRef rb | BStop rb _ _ =>
+                         match rb_tail rb with
+                         | TWait _ how _ => String.eqb how (if lib_async (m_lib m) then "await" else "blocking")
+                         | _ => true end
+                     | _ => true end) (m_methods m).
+
 (* play: blocking receive loop on its receiver parameter, inline dispatch of every message on its actor parameter *)
 Definition play_ok (m : model) : bool :=
   match m_play m with
@@ -71,7 +82,7 @@ Definition ctor_ok (m : model) : bool :=
 
 Definition wf_struct (m : model) : bool :=
   is_nil (m_unknown m) && forallb arm_known (m_arms m) && forallb (fun lm => body_known (lm_body lm)) (m_methods m)
-  && play_ok m && ctor_ok m && nodup_str (map lm_name (m_methods m)) && nodup_str (map v_name (m_variants m)) && await_ok m.
+  && play_ok m && ctor_ok m && nodup_str (map lm_name (m_methods m)) && nodup_str (map v_name (m_variants m)) && await_ok m && wait_kind_ok m.
 
 (* C08: every handle method sends with a blocking send on the handle's own sender; the capacity is a literal *)
 Definition wf_C08 (m : model) : bool := wf_struct m && all_blocking (elab m).
